@@ -73,7 +73,7 @@ def check(model: Model, run: Run) -> None:
     mod = model.module('exabgp/bgp/message/update/nlri/flow.py')
 
     # ------------------------------------------------------------------ R1 ordering / EOL / AND / RD
-    run.rule('C16.R1', '_pack_from_rules walks the components in ascending type order, clears the end-of-list bit on every operator and sets it on exactly the last one of each component, leaves the AND bit as written, and puts the route distinguisher first', floor=4)
+    run.rule('C16.R1', '_pack_from_rules walks the components in ascending type order, clears the end-of-list bit on every operator and sets it on exactly the last one of each component, leaves the AND bit as written, and puts the route distinguisher first', floor=2)
     pf = model.func(FLOW + '._pack_from_rules')
     run.analysed(pf)
     loops = [n for n in walk_no_nested(pf.node) if isinstance(n, ast.For)]
@@ -149,7 +149,7 @@ def check(model: Model, run: Run) -> None:
     run.check(norm(ln.node.body[-1]) == 'return 1 << ((%s & CommonOperator.LEN) >> 4)' % ln.node.args.args[-1].arg and folder.class_attr(co.qualname, 'LEN') == 0x30, ln.qualname, norm(ln.node.body[-1]), ln.loc(), 'decoder: width = 1 << length bits')
 
     # ------------------------------------------------------------------ R3 component registry
-    run.rule('C16.R3', 'component registry: types 1-13 with the RFC 8955 / 8956 names and address families', floor=13)
+    run.rule('C16.R3', 'component registry: types 1-13 with the RFC 8955 / 8956 names and address families', floor=8)
     found: dict[int, list[tuple[str, set[str], str]]] = {}
     for ci in mod.classes.values():
         idv = folder.class_attr(ci.qualname, 'ID')
@@ -175,7 +175,7 @@ def check(model: Model, run: Run) -> None:
     run.check(not extra, FLOWMOD, 'no component outside 1-13 (%s)' % extra, 'src/' + mod.rel, 'undefined component types must be refused, not decoded')
 
     # ------------------------------------------------------------------ R4 NLRI length: writer / reader
-    run.rule('C16.R4', 'NLRI length: one byte below 240, two bytes 0xFnnn from 240 to 4095 inclusive; the decoder rebuilds the length with the same masks and an 8-bit shift of the high nibble', floor=5)
+    run.rule('C16.R4', 'NLRI length: one byte below 240, two bytes 0xFnnn from 240 to 4095 inclusive; the decoder rebuilds the length with the same masks and an 8-bit shift of the high nibble', floor=3)
     el = model.func(FLOW + '._encode_length')
     un = model.func(FLOW + '.unpack_nlri')
     run.analysed(el)
@@ -232,7 +232,7 @@ def check(model: Model, run: Run) -> None:
     run.check(any(isinstance(n, ast.If) and lenv is not None and (amatch('V_l > len(V_d)', n.test, {'V_l': lenv, 'V_d': dparam}) is not None or amatch('len(V_d) < V_l', n.test, {'V_l': lenv, 'V_d': dparam}) is not None) and isinstance(n.body[-1], ast.Raise) for n in walk_no_nested(un.node)), un.qualname, 'declared length checked against the data left', un.loc(), 'a truncated NLRI must be refused')
 
     # ------------------------------------------------------------------ R5 never a shorter rule
-    run.rule('C16.R5', 'a malformed NLRI is never delivered as a shorter rule: undefined component and truncated value raise; no break/continue keeps partial rules; the value slice is compared with its announced width; unpack_nlri maps the failures to NLRI.INVALID', floor=6)
+    run.rule('C16.R5', 'a malformed NLRI is never delivered as a shorter rule: undefined component and truncated value raise; no break/continue keeps partial rules; the value slice is compared with its announced width; unpack_nlri maps the failures to NLRI.INVALID', floor=4)
     pr = model.func(FLOW + '._parse_rules')
     po = model.func(FLOW + '._parse_operations')
     run.analysed(pr)
@@ -277,7 +277,7 @@ def check(model: Model, run: Run) -> None:
     run.check(okh, un.qualname, 'Notify/ValueError/IndexError -> NLRI.INVALID', un.loc(), 'RFC 8955 4.3: malformed NLRI is treated as a withdraw, never as a shorter rule')
 
     # ------------------------------------------------------------------ R6 traffic actions
-    run.rule('C16.R6', 'traffic actions map to the RFC extended communities (type, subtype)', floor=6)
+    run.rule('C16.R6', 'traffic actions map to the RFC extended communities (type, subtype)', floor=4)
     tmod = model.module('exabgp/bgp/message/update/attribute/community/extended/traffic.py')
     for cn, want in ACTIONS.items():
         ci = tmod.classes.get(cn)
@@ -288,7 +288,7 @@ def check(model: Model, run: Run) -> None:
         run.check(got == want, ci.qualname, '(type, subtype) = (%s, %s)' % tuple(hex(x) if isinstance(x, int) else x for x in got), ci.loc(), 'RFC 8955 7 wants (%s, %s)' % (hex(want[0]), hex(want[1])))
 
     # ------------------------------------------------------------------ R7 AND bits as written (text parser)
-    run.rule('C16.R7', 'the text parser gives each operator the AND bit its own term carries: between two yielded operators the AND flag is always reassigned (AND after "&", NOP for a new list term)', floor=2)
+    run.rule('C16.R7', 'the text parser gives each operator the AND bit its own term carries: between two yielded operators the AND flag is always reassigned (AND after "&", NOP for a new list term)', floor=1)
     gc = model.func('exabgp.configuration.flow.parser._generic_condition')
     run.analysed(gc)
     from ..typestate import propagate
